@@ -24,6 +24,14 @@ static inline vc_wide vc_val(const dig_t *p, size_t n) {
 	}
 	return v;
 }
+/* v * d by shift-and-add over the RLC_DIG bits of d (a full-width multiplier is far more expensive for SAT) */
+static inline vc_wide vc_mul_dig(vc_wide v, dig_t d) {
+	vc_wide r = 0;
+	for (int j = 0; j < RLC_DIG; j++) {
+		if ((d >> j) & 1) r += v << j;
+	}
+	return r;
+}
 /* magnitude and signed value of a bn object (used <= RLC_BN_SIZE) */
 static inline vc_wide vc_mag(const bn_st *a) { return vc_val(a->dp, a->used); }
 static inline vc_swide vc_sval(const bn_st *a) {
@@ -34,6 +42,9 @@ static inline vc_swide vc_sval(const bn_st *a) {
 /* representation invariant of an initialised bn in the AUTO configuration */
 #define VC_BN_SHAPE(a)   ((a)->alloc == RLC_BN_SIZE && (a)->used >= 1 && (a)->used <= RLC_BN_SIZE && \
 	((a)->sign == RLC_POS || (a)->sign == RLC_NEG))
+/* magnitude part of the normal form (sign-agnostic): what the magnitude helpers and comparisons rely on */
+#define VC_BN_NFMAG(a)   ((a)->alloc == RLC_BN_SIZE && (a)->used >= 1 && (a)->used <= RLC_BN_SIZE && \
+	((a)->dp[(a)->used - 1] != 0 || (a)->used == 1))
 /* normal form: no leading zero digit unless the value is zero; zero has used==1 and is non-negative */
 #define VC_BN_NF(a)      (VC_BN_SHAPE(a) && ((a)->dp[(a)->used - 1] != 0 || ((a)->used == 1 && (a)->sign == RLC_POS)))
 
